@@ -41,6 +41,9 @@ type Case struct {
 	// failing-input search legs: kind "typed" | "period" | "scale" | "aged"; "conc" with a slow queue consumer
 	Typed  *typedCase `json:"typed,omitempty"`
 	SlowUS int        `json:"slow_us,omitempty"`
+	// every-tier legs over reply fields, lifecycle orders and re-entrant callbacks: kind "fields" | "lifecycle" | "reentrant" (Seed)
+	Fields *fieldsCase `json:"fields,omitempty"`
+	Life   *lifeCase   `json:"life,omitempty"`
 }
 
 type event struct {
